@@ -230,7 +230,9 @@ class Config:
 class Builder:
     """Records what a generator pushes (stands for ResampledFormulaBuilder / the engine it builds)."""
 
-    def __init__(self, namespace=None, name=None, registry=None, sender=None, metric_id=None, create_method=None) -> None:
+    def __init__(self, namespace=None, formula_name=None, channel_registry=None, resampler_subscription_sender=None,
+                 metric_id=None, create_method=None) -> None:
+        # (parameter names of the real `ResampledFormulaBuilder`: the generators may pass them by keyword)
         self.metric_id = metric_id
         self.items: list = []
 
@@ -260,8 +262,8 @@ class Builder:
 
 
 class Fallback:
-    def __init__(self, generator) -> None:
-        self.generator = generator
+    def __init__(self, formula_generator) -> None:      # (parameter name of the real FallbackFormulaMetricFetcher)
+        self.generator = formula_generator
 
 
 class ConnectionManager:
